@@ -19,9 +19,11 @@ class VmIo:
             case IoOp.REGISTER:
                 self._unnamed.append(self._reg.get_by_enum(inst.param1))
             case IoOp.PRINT:
+                # Only the value just evaluated belongs to this statement;
+                # earlier ones may be pending arguments of an enclosing printf
+                # whose later argument called the routine that is printing.
                 if len(self._unnamed) > 0:
-                    output.out(self._unnamed[0])
-                    self._unnamed.clear()
+                    output.out(self._unnamed.pop())
             case IoOp.PRINT_END:
                 output.newline()
             case IoOp.PRINTF:
@@ -44,13 +46,18 @@ class VmIo:
     def _printf(self, inst, output):
         format_str = inst.param1.replace('\\n', '\n')
         named = {}
+        num_unnamed = 0
         for field in string.Formatter().parse(format_str):
             name = field[1]
+            if name is not None and (len(name) == 0 or name.isdecimal()):
+                num_unnamed += 1
             if name is not None and len(name) > 0 and not name.isdecimal():
                 reg = Register.from_string(name)
                 if reg is not None:
                     named[name] = self._reg.get_by_enum(reg)
                 else:
                     named[name] = self._call_stack.get_variable(name)
-        output.out(format_str.format(*self._unnamed, **named))
-        self._unnamed.clear()
+        first = len(self._unnamed) - num_unnamed
+        values = self._unnamed[first:]
+        del self._unnamed[first:]
+        output.out(format_str.format(*values, **named))
